@@ -314,6 +314,7 @@ type c03Case struct {
 	Mode string `json:"mode"` // mutate | pairs | chain | preimage
 	Base int    `json:"base"`
 	Only int    `json:"only"` // replay: only this mutation index (-1 all)
+	Shard int   `json:"shard,omitempty"`
 	Lv   int    `json:"lv"`
 }
 
@@ -328,9 +329,9 @@ func (c *c03) ID() string { return "C03" }
 func (c *c03) Meta() engine.Meta {
 	return engine.Meta{
 		Category:  "model_checking",
-		LevelName: "1 = single mutations / pre-image products, 2 = pairs of mutations of different fields",
+		LevelName: "1 = single mutations / pre-image products, 2 = pairs of mutations of different fields, 3 = triples (thorough)",
 		Technique: "bounded-exhaustive mutation enumeration of signed transactions on the real application (twin oracle) + exhaustive bounded injectivity check of the signing pre-image",
-		Rule: "(a) 10 valid signed base transactions (all 8 types, deployment, call, transfer to a contract) at a state where each of them succeeds; mutation operators on the DECODED value of every field with the signature KEPT: version, time (+-1, 0, sign flip, +2^32, +2^63), nonce, claimed sender (5 other accounts, with their current nonce), receiver, amount (+-1, +1R, +2^64, +2^128, 0, x2), gas, gas price, type (relabel to each of the 8 types), every payload sub-field incl. the narrowed ones (heights +1 / +2^31 / +2^32 / +2^40 / +2^62, option type +2^16, options changed / appended / swapped, vote choice / proposal, call data, name / url boundary shift), the signature itself (every byte, truncation, extension, v+27, a signature of another transaction of the same sender) and the chain id (application initialised with another id; transaction signed for another id): all single mutations and all pairs of mutations of two different fields. Oracle: the mutant's DeliverTx code is non-zero, the unmodified transaction still succeeds afterwards, and the complete state equals the twin that never saw the mutants. " +
+		Rule: "(a) 10 valid signed base transactions (all 8 types, deployment, call, transfer to a contract) at a state where each of them succeeds; mutation operators on the DECODED value of every field with the signature KEPT: version, time (+-1, 0, sign flip, +2^32, +2^63), nonce, claimed sender (5 other accounts, with their current nonce), receiver, amount (+-1, +1R, +2^64, +2^128, 0, x2), gas, gas price, type (relabel to each of the 8 types), every payload sub-field incl. the narrowed ones (heights +1 / +2^31 / +2^32 / +2^40 / +2^62, option type +2^16, options changed / appended / swapped, vote choice / proposal, call data, name / url boundary shift), the signature itself (every byte, truncation, extension, v+27, a signature of another transaction of the same sender) and the chain id (application initialised with another id; transaction signed for another id): all single mutations and all pairs of mutations of two different fields (thorough: also all triples over three different non-signature fields). Oracle: the mutant's DeliverTx code is non-zero, the unmodified transaction still succeeds afterwards, and the complete state equals the twin that never saw the mutants. " +
 			"(b) for every transaction type the full product of per-field value menus (values chosen to collide under any 32/64-bit narrowing: x, x+1, x+2^31, x+2^32, x+2^40, negative / wrapped): no two transactions that differ in an executed field share the signing pre-image (hash-set based). " +
 			"distinct_nontrivial = cases in which at least one mutant was rejected BY THE SIGNATURE CHECK (not by an earlier validation).",
 		Assumptions: []string{
@@ -352,6 +353,14 @@ func (c *c03) Prepare(tier string, seed int64) error {
 	}
 	for b := range c03Bases() {
 		c.cases = append(c.cases, c03Case{Mode: "pairs", Base: b, Only: -1, Lv: 2})
+	}
+	if tier == "thorough" {
+		// all TRIPLES of mutations of three different non-signature fields, sharded 16 ways per base
+		for b := range c03Bases() {
+			for sh := 0; sh < 16; sh++ {
+				c.cases = append(c.cases, c03Case{Mode: "triples", Base: b, Shard: sh, Only: -1, Lv: 3})
+			}
+		}
 	}
 	return nil
 }
@@ -392,6 +401,31 @@ func (c *c03) RunDesc(desc json.RawMessage) engine.Result {
 		for _, m := range muts {
 			m := m
 			jobs = append(jobs, job{m.Field + " " + m.Name, m.Field, m.F})
+		}
+	} else if cs.Mode == "triples" {
+		var ns []mutation
+		for _, m := range muts {
+			if m.Field != "sig" {
+				ns = append(ns, m)
+			}
+		}
+		n := 0
+		for i := range ns {
+			for j := i + 1; j < len(ns); j++ {
+				for k := j + 1; k < len(ns); k++ {
+					m1, m2, m3 := ns[i], ns[j], ns[k]
+					if m1.Field == m2.Field || m2.Field == m3.Field || m1.Field == m3.Field {
+						continue
+					}
+					n++
+					if n%16 != cs.Shard {
+						continue
+					}
+					jobs = append(jobs, job{m1.Field + " " + m1.Name + " & " + m2.Field + " " + m2.Name + " & " + m3.Field + " " + m3.Name, m1.Field + "&" + m2.Field + "&" + m3.Field, func(tx *ctrlertypes.Trx, ch *sim.Chain) bool {
+						return m1.F(tx, ch) && m2.F(tx, ch) && m3.F(tx, ch)
+					}})
+				}
+			}
 		}
 	} else {
 		for i, m1 := range muts {
